@@ -1,5 +1,5 @@
 (* C08 — comments, whitespace and letter case never change what is parsed (partial). *)
-From Secs Require Import Ast Fill Msg Lexer Parser SmlNumbers SmlProofs.
+From Secs Require Import Ast Fill Msg Lexer Parser SmlNumbers SmlProofs LexProofs LayoutProofs.
 Open Scope Z_scope.
 
 (* any amount and kind of white space (blanks, tabs, CR, LF) in front of the
@@ -25,8 +25,33 @@ Theorem C08_prefix_case : forall (p : byte) base n, 0 <= n ->
 Proof. exact parse_unsigned_prefixed. Qed.
 Print Assumptions C08_prefix_case.
 
-(* C08_gap_partial: the full statement (exchanging any two gaps made of white
-   space and comments at a token boundary, and the letter case of keywords,
-   leaves the token cores unchanged) is decided by the metamorphic pairs of
-   suite C08 on the library and by the token-level correspondence with the
-   lexer model; the comment half of the theorem is not proved yet. *)
+(* a // comment with any content up to its line feed — any bytes, any script,
+   any trailing blanks — contributes no token to what the parser sees; the
+   tokens that follow are those of the rest of the text, lexed in the same
+   state, every offset moved by exactly the bytes of the comment line *)
+Theorem C08_comment : forall alnum body rest st F G,
+  Forall (fun b => negb (byte_eqb b x0a) = true) body ->
+  (length (x2f :: x2f :: body ++ x0a :: rest) < F)%nat -> (length rest < G)%nat ->
+  drop_comments (lex_from alnum F st (x2f :: x2f :: body ++ x0a :: rest) 0) =
+  map (shift (Z.of_nat (length body) + 3)) (drop_comments (lex_from alnum G st rest 0)).
+Proof. exact comment_moves_offsets. Qed.
+Print Assumptions C08_comment.
+
+(* the token stream does not depend on where it starts counting: lexing at
+   another offset gives the same tokens with every offset moved by the difference *)
+Theorem C08_offsets : forall alnum f st s off,
+  lex_from alnum f st s off = map (shift off) (lex_from alnum f st s 0).
+Proof. exact lex_from_shift. Qed.
+Print Assumptions C08_offsets.
+
+(* the model's fuel is not part of the meaning *)
+Theorem C08_fuel : forall alnum f g st s off, (length s < f)%nat -> (length s < g)%nat ->
+  lex_from alnum f st s off = lex_from alnum g st s off.
+Proof. exact lex_fuel_irrelevant. Qed.
+Print Assumptions C08_fuel.
+
+(* C08_gap_partial: gaps in front of the NEXT token are covered by
+   C08_whitespace and C08_comment; that a gap after a token does not change
+   that token (locality of the seven prefix matchers under what follows) and the
+   letter case of keywords are decided by the metamorphic pairs of suite C08 on
+   the library and by the token-level correspondence with the lexer model. *)
